@@ -6,7 +6,9 @@
 (* RenamePropsGen.tla.  For every site the harness OBSERVED the property    *)
 (* key the output actually uses (proxy traps, own keys of literals and      *)
 (* instances); the record also holds the mangle cache given and returned.   *)
-(* TLC evaluates the invariants below on every record.                      *)
+(* TLC evaluates the invariants below on every record.  The mangle cache is *)
+(* an input with all three entry kinds per property (absent, string target, *)
+(* `false` = keep); see RenamePropsGen.tla for the two scenario families.   *)
 (***************************************************************************)
 EXTENDS Integers, Sequences, FiniteSets, TLC, Json
 
@@ -41,11 +43,33 @@ CacheAgrees ==
   /\ \A s \in Sites : (Mangled(s) /\ Given(s.prop) # "<none>") => s.key = Given(s.prop)
   /\ Rec.hasCache => CacheIn \subseteq CacheOut
 
+\* the final name of a cache entry: a `false` entry keeps the property's own name
+Final(c) == IF c.v = "<false>" THEN c.p ELSE c.v
+\* the RETURNED cache never sends two properties to one final name, and `false` stays `false`
+CacheInjective ==
+  /\ \A c, d \in CacheOut : c.p # d.p => Final(c) # Final(d)
+  /\ \A c \in CacheIn : c.v = "<false>" => \A d \in CacheOut : d.p = c.p => d.v = "<false>"
+\* names that must not be handed out: keys of `false` entries and string targets of the
+\* cache given (used in this build or not), and every property the build uses unmangled and
+\* unquoted (reserved, not matching).  Quoted keys are the known gap: DistinctPropsDistinctKeys.
+KeptNames == {c.p : c \in {d \in CacheIn : d.v = "<false>"}}
+             \cup {s.prop : s \in {t \in Sites : ~Mangled(t) /\ t.form \notin QuotedForms /\ t.form # "runtime"}}
+KeptNamesNotReused ==
+  /\ \A s \in Sites : (Mangled(s) /\ Given(s.prop) = "<none>") => s.key \notin KeptNames
+  /\ \A s \in Sites : \A c \in CacheIn : (Mangled(s) /\ c.p # s.prop /\ c.v # "<false>") => s.key # c.v
+  /\ \A c \in CacheOut : (c.v # "<false>" /\ c \notin CacheIn) => c.v \notin KeptNames
+\* executed: the object literal holding every property of the build has as many own keys, and the
+\* same sum of values read back through the (renamed) accesses, in the output as in the input
+LiteralPreserved == Rec.lit.outKeys = Rec.lit.inKeys /\ Rec.lit.outSum = Rec.lit.inSum
+
 Failing ==
   (IF UnmangledUntouched THEN {} ELSE {"UnmangledUntouched"}) \cup
   (IF MangledPropsConsistent THEN {} ELSE {"MangledPropsConsistent"}) \cup
   (IF DistinctPropsDistinctKeys THEN {} ELSE {"DistinctPropsDistinctKeys"}) \cup
-  (IF CacheAgrees THEN {} ELSE {"CacheAgrees"})
+  (IF CacheAgrees THEN {} ELSE {"CacheAgrees"}) \cup
+  (IF CacheInjective THEN {} ELSE {"CacheInjective"}) \cup
+  (IF KeptNamesNotReused THEN {} ELSE {"KeptNamesNotReused"}) \cup
+  (IF LiteralPreserved THEN {} ELSE {"LiteralPreserved"})
 Report == PrintT(<<"CASE", ToJson([i |-> i, failing |-> Failing,
                                    mangled |-> Cardinality({s \in Sites : Mangled(s)}),
                                    renamed |-> Cardinality({s \in Sites : s.key # s.prop})])>>)
